@@ -11,10 +11,16 @@
    stored (hvs) or used as evidence (ghost log) is in the soup, and a finalized
    block is decided in T.
 
+   Durable state: every vote inside a record of the round / commit WAL is in
+   the soup ([sm_walr], [sm_walc]); the lock WAL is a sequence of complete lock
+   entries (Proofs_ConsensusNet_LockWAL.v, [lockwal_shape]) fully synced, and the
+   abstract lock of i is either none or the lock of the last entry ([sm_shape]:
+   unlocks are not logged, deviation D2 of docs/notes/C01_spec.md).
+
    This file covers histories without crash points INSIDE events: [sm_fuse].  *)
 From Coq Require Import List ZArith NArith Bool Arith Lia.
 From Goloop Require Import Model_ConsensusNode Proofs_ConsensusNode Proofs_ConsensusNode_C01
-  Model_ConsensusNet Proofs_ConsensusNet_Link.
+  Model_ConsensusNet Proofs_ConsensusNet_Link Proofs_ConsensusNet_LockWAL.
 Import ListNotations.
 Open Scope Z_scope.
 
@@ -29,7 +35,8 @@ Definition gev_votes (e : gev) : vset :=
 
 (* ------------------------------------------------------------------ what the relation reads *)
 
-Record ssame (s s' : st) : Prop := {
+(* the volatile part *)
+Record score (s s' : st) : Prop := {
   ss_status : status_ s' = status_ s;
   ss_locked : locked s' = locked s;
   ss_lr : locked_round s' = locked_round s;
@@ -41,16 +48,38 @@ Record ssame (s s' : st) : Prop := {
   ss_sent : forall r t d k, In (SVote r t d k) (sent s') <-> In (SVote r t d k) (sent s)
 }.
 
-Lemma ssame_refl s : ssame s s.
+(* ... and the records of the three WALs *)
+Record ssame (s s' : st) : Prop := {
+  ss_core : score s s';
+  ss_walr : wal_all (wal_r s') = wal_all (wal_r s);
+  ss_wall : wal_all (wal_l s') = wal_all (wal_l s);
+  ss_lsync : w_unsynced (wal_l s) = [] -> w_unsynced (wal_l s') = [];
+  ss_walc : wal_all (wal_c s') = wal_all (wal_c s)
+}.
+
+Lemma score_refl s : score s s.
 Proof. constructor; auto. tauto. Qed.
 
-Lemma ssame_trans a b c : ssame a b -> ssame b c -> ssame a c.
+Lemma score_trans a b c : score a b -> score b c -> score a c.
 Proof.
   intros [] []; constructor; try congruence.
   intros. rewrite ss_sent1, ss_sent0. tauto.
 Qed.
 
+Lemma ssame_refl s : ssame s s.
+Proof. constructor; auto using score_refl. Qed.
+
+Lemma ssame_trans a b c : ssame a b -> ssame b c -> ssame a c.
+Proof.
+  intros [] []; constructor; try congruence; eauto using score_trans.
+Qed.
+
+(* outputs that change neither the volatile part nor the WAL records *)
 Definition sim_quiet (o : out) : bool :=
+  match o with OSendVote _ | OFinalize _ | OWrite _ _ => false | _ => true end.
+
+(* outputs that do not change the volatile part *)
+Definition core_quiet (o : out) : bool :=
   match o with OSendVote _ | OFinalize _ => false | _ => true end.
 
 Lemma emit_none o s : fuse s = None -> emit o s = apply_out o (set_outs (outs s ++ [o]) None s).
@@ -68,11 +97,24 @@ Proof. induction l as [|o l IH]; intros s F; cbn; auto. apply IH, fuse_emit; aut
 Lemma In_app_one {A} (l : list A) x y : In y (l ++ [x]) <-> In y l \/ y = x.
 Proof. rewrite in_app_iff. cbn. intuition. Qed.
 
-Lemma ssame_emit o s : fuse s = None -> sim_quiet o = true -> ssame s (emit o s).
+Lemma score_emit o s : fuse s = None -> core_quiet o = true -> score s (emit o s).
 Proof.
   intros F Q. rewrite emit_none; auto.
   destruct o as [[] ?|[]| | | | | | | | ]; try discriminate Q; constructor; cbn; auto; try tauto.
   intros. rewrite In_app_one. split; [intros [?|?]; [auto|discriminate]|auto].
+Qed.
+
+Lemma wal_all_sync' w : wal_all (wal_sync w) = wal_all w.
+Proof. unfold wal_all, wal_sync; cbn. now rewrite app_nil_r. Qed.
+
+Lemma ssame_emit o s : fuse s = None -> sim_quiet o = true -> ssame s (emit o s).
+Proof.
+  intros F Q. constructor.
+  - apply score_emit; auto. destruct o; auto; discriminate.
+  - rewrite emit_none; auto. destruct o as [[] ?|[]| | | | | | | | ]; try discriminate Q; cbn -[wal_all]; auto using wal_all_sync'.
+  - rewrite emit_none; auto. destruct o as [[] ?|[]| | | | | | | | ]; try discriminate Q; cbn -[wal_all]; auto using wal_all_sync'.
+  - rewrite emit_none; auto. destruct o as [[] ?|[]| | | | | | | | ]; try discriminate Q; cbn; auto.
+  - rewrite emit_none; auto. destruct o as [[] ?|[]| | | | | | | | ]; try discriminate Q; cbn -[wal_all]; auto using wal_all_sync'.
 Qed.
 
 Lemma ssame_emit_all l : forall s, fuse s = None -> forallb sim_quiet l = true -> ssame s (emit_all l s).
@@ -82,48 +124,13 @@ Proof.
   eapply ssame_trans; [apply ssame_emit; eauto|]. apply IH; auto. apply fuse_emit; auto.
 Qed.
 
-Lemma ssame_send_proposal n blocks b pol s :
-  fuse s = None -> ssame s (send_proposal n blocks b pol s).
-Proof.
-  intro F. unfold send_proposal.
-  set (s1 := emit (OWrite WRound (RProposal (round s) b pol)) s).
-  assert (S1 : ssame s s1) by (apply ssame_emit; auto).
-  assert (F1 : fuse s1 = None) by (apply fuse_emit; auto).
-  set (s2 := emit (OSync WRound) s1).
-  assert (S2 : ssame s s2) by (eapply ssame_trans; [exact S1|apply ssame_emit; auto]).
-  assert (F2 : fuse s2 = None) by (apply fuse_emit; auto).
-  set (s3 := emit (OSendProposal (round s2) b pol) s2).
-  assert (S3 : ssame s s3) by (eapply ssame_trans; [exact S2|apply ssame_emit; auto]).
-  assert (F3 : fuse s3 = None) by (apply fuse_emit; auto).
-  match goal with |- ssame _ (emit_all _ ?x) => set (s4 := x) end.
-  assert (S4 : ssame s s4 /\ fuse s4 = None).
-  { subst s4. destruct (Z.leb 0 pol).
-    - split; [eapply ssame_trans; [exact S3|apply ssame_emit; auto]|apply fuse_emit; auto].
-    - split; auto. }
-  destruct S4 as [S4 F4].
-  eapply ssame_trans; [exact S4|]. apply ssame_emit_all; auto.
-  induction (all_parts blocks b); cbn; auto.
-Qed.
-
-Lemma ssame_write_lock_wal blocks pv b s :
-  fuse s = None -> ssame s (write_lock_wal blocks pv b s).
-Proof.
-  intro F. unfold write_lock_wal.
-  set (s1 := emit (OWrite WLock (RVoteList (vs_list pv))) s).
-  assert (S1 : ssame s s1) by (apply ssame_emit; auto).
-  assert (F1 : fuse s1 = None) by (apply fuse_emit; auto).
-  match goal with |- ssame _ (emit _ ?x) => set (s2 := x) end.
-  assert (S2 : ssame s1 s2).
-  { subst s2. apply ssame_emit_all; auto. induction (all_parts blocks b); cbn; auto. }
-  assert (F2 : fuse s2 = None) by (subst s2; apply fuse_emit_all; auto).
-  eapply ssame_trans; [exact S1|]. eapply ssame_trans; [exact S2|]. apply ssame_emit; auto.
-Qed.
+Ltac ss_plain := constructor; [constructor; cbn; auto; tauto|cbn; auto..].
 
 Lemma ssame_add_part blocks b idx s : ssame s (snd (add_part blocks b idx s)).
 Proof.
   unfold add_part. destruct (cur s); cbn; [|apply ssame_refl].
   destruct (negb _); cbn; [apply ssame_refl|]. destruct (negb _); cbn; [apply ssame_refl|].
-  destruct (existsb _ _); cbn; [apply ssame_refl|]. constructor; cbn; auto. tauto.
+  destruct (existsb _ _); cbn; [apply ssame_refl|]. ss_plain.
 Qed.
 
 Lemma ssame_fill_from_cache blocks b s : ssame s (fill_from_cache blocks b s).
@@ -138,9 +145,63 @@ Proof.
 Qed.
 
 Lemma ssame_set_by_psid b s : ssame s (set_by_psid b s).
-Proof. unfold set_by_psid. destruct (bps_id_is _ _); [apply ssame_refl|constructor; cbn; auto; tauto]. Qed.
+Proof. unfold set_by_psid. destruct (bps_id_is _ _); [apply ssame_refl|ss_plain]. Qed.
+
+(* what [write_lock_wal] does when the process survives it *)
+Lemma emit_lockparts b l : forall s, fuse s = None ->
+  let s' := emit_all (map (fun i => OWrite WLock (RPart b i)) l) s in
+  score s s' /\ fuse s' = None /\ wal_r s' = wal_r s /\ wal_c s' = wal_c s /\
+  w_synced (wal_l s') = w_synced (wal_l s) /\
+  w_unsynced (wal_l s') = w_unsynced (wal_l s) ++ map (RPart b) l.
+Proof.
+  induction l as [|x l IH]; intros s F; cbn [map emit_all].
+  - cbn. rewrite app_nil_r. repeat split; auto using score_refl.
+  - set (s1 := emit (OWrite WLock (RPart b x)) s).
+    assert (F1 : fuse s1 = None) by (apply fuse_emit; auto).
+    destruct (IH s1 F1) as [A [B [C [D [G H]]]]]. cbv zeta in *.
+    assert (E1 : s1 = apply_out (OWrite WLock (RPart b x)) (set_outs (outs s ++ [OWrite WLock (RPart b x)]) None s))
+      by (apply emit_none; auto).
+    split; [apply (@score_trans s s1); [subst s1; apply score_emit; auto|exact A]|].
+    split; [exact B|]. rewrite C, D, G, H. rewrite E1. cbn. rewrite <- app_assoc. repeat split; auto.
+Qed.
+
+Lemma write_lock_wal_effect blocks pv b s :
+  fuse s = None -> w_unsynced (wal_l s) = [] ->
+  let s' := write_lock_wal blocks pv b s in
+  score s s' /\ wal_r s' = wal_r s /\ wal_c s' = wal_c s /\
+  wal_all (wal_l s') = wal_all (wal_l s) ++ lock_entry blocks pv b /\ w_unsynced (wal_l s') = [].
+Proof.
+  intros F U. unfold write_lock_wal.
+  set (s1 := emit (OWrite WLock (RVoteList (vs_list pv))) s).
+  assert (F1 : fuse s1 = None) by (apply fuse_emit; auto).
+  assert (E1 : s1 = apply_out (OWrite WLock (RVoteList (vs_list pv))) (set_outs (outs s ++ [OWrite WLock (RVoteList (vs_list pv))]) None s))
+    by (apply emit_none; auto).
+  destruct (emit_lockparts b (all_parts blocks b) s1 F1) as [A [B [C [D [G H]]]]]. cbv zeta in *.
+  match goal with |- context [emit (OSync WLock) ?x] => set (s2 := x) in * end.
+  rewrite (emit_none (OSync WLock) s2 B). cbn.
+  split; [|split; [|split; [|split]]]; auto.
+  - apply (@score_trans s s1); [subst s1; apply score_emit; auto|]. apply (@score_trans s1 s2); [exact A|].
+    constructor; cbn; auto; tauto.
+  - rewrite C, E1. reflexivity.
+  - rewrite D, E1. reflexivity.
+  - unfold wal_all. cbn. rewrite G, H, E1. cbn. rewrite U. cbn. rewrite app_nil_r.
+    unfold lock_entry. unfold wal_all. rewrite U, app_nil_r. reflexivity.
+Qed.
 
 (* ------------------------------------------------------------------ the relation *)
+
+Definition convL (L : option (N * Z)) : option (N * N) :=
+  match L with Some (b, r) => Some (Z.to_N r, b) | None => None end.
+
+Lemma rec_sub_mono (K K' : vote -> Prop) r : (forall v, K v -> K' v) -> rec_sub K r -> rec_sub K' r.
+Proof. intros M. destruct r; cbn; auto. Qed.
+
+Lemma Forall_rec_sub_mono (K K' : vote -> Prop) l :
+  (forall v, K v -> K' v) -> Forall (rec_sub K) l -> Forall (rec_sub K') l.
+Proof. intros M F. eapply Forall_impl; [|exact F]. intros r. apply rec_sub_mono; auto. Qed.
+
+Lemma wal_all_write w r : wal_all (wal_write w r) = wal_all w ++ [r].
+Proof. unfold wal_all, wal_write. cbn. apply app_assoc. Qed.
 
 Section Sim.
   Variable n : nat.
@@ -180,36 +241,47 @@ Section Sim.
     sm_round : 0 <= round s;
     sm_sent : forall r t d k, In (SVote r t d k) (sent s) -> 0 <= r;
     sm_fuse : fuse s = None;
-    sm_k0 : forall v, K0 v -> known s v
+    sm_k0 : forall v, K0 v -> known s v;
+    sm_walr : Forall (rec_sub (known s)) (wal_all (wal_r s));
+    sm_walc : Forall (rec_sub (known s)) (wal_all (wal_c s));
+    sm_shape : exists L, lockwal_shape n blocks (known s) (wal_all (wal_l s)) L /\
+                         (TM.lock T i = None \/ TM.lock T i = convL L);
+    sm_lsync : w_unsynced (wal_l s) = []
   }.
 
   Lemma frame_refl : frame T0.
   Proof. split; [auto|apply incl_refl]. Qed.
 
-  Lemma known_ssame s s' v : ssame s s' -> known s v -> known s' v.
+  Lemma known_score s s' v : score s s' -> known s v -> known s' v.
   Proof.
     intros S [H|[r [t [d [k [H ->]]]]]]; [left; auto|right].
     exists r, t, d, k. split; auto. apply (ss_sent S); auto.
   Qed.
 
-  Lemma ssame_sym s s' : ssame s s' -> ssame s' s.
+  Lemma score_sym s s' : score s s' -> score s' s.
   Proof. intros []; constructor; auto. intros. rewrite ss_sent0. tauto. Qed.
 
-  Lemma lock_of_ssame s s' : ssame s s' -> lock_of s' = lock_of s.
+  Lemma lock_of_score s s' : score s s' -> lock_of s' = lock_of s.
   Proof. intros []. unfold lock_of. rewrite ss_locked0, ss_lr0. reflexivity. Qed.
 
+  (* the volatile clauses, for a state with the same volatile part *)
   Lemma Sim_ssame s s' T : ssame s s' -> Sim s T -> Sim s' T.
   Proof.
-    intros S H. pose proof (ssame_sym S) as S'. destruct H. constructor; auto.
-    - intro m. rewrite sm_soup0. split; intros [v [K C]]; exists v; split; auto; eapply known_ssame; eauto.
-    - rewrite (ss_status S), (lock_of_ssame S). auto.
-    - rewrite (ss_hvs S). intros u Hu. eapply known_ssame; eauto.
-    - rewrite (ss_glog S). intros e u He Hu. eapply known_ssame; eauto.
+    intros [S Wr Wl Ls Wc] H. pose proof (score_sym S) as S'.
+    assert (M : forall v, known s v -> known s' v) by (intros v; apply known_score; auto).
+    destruct H. constructor; auto.
+    - intro m. rewrite sm_soup0. split; intros [v [K C]]; exists v; split; auto; eapply known_score; eauto.
+    - rewrite (ss_status S), (lock_of_score S). auto.
+    - rewrite (ss_hvs S). intros u Hu. eapply known_score; eauto.
+    - rewrite (ss_glog S). intros e u He Hu. eapply known_score; eauto.
     - rewrite (ss_dec S). auto.
     - rewrite (ss_round S). auto.
     - intros r t d k Hk. apply (ss_sent S) in Hk. eauto.
     - rewrite (ss_fuse S). auto.
-    - intros v Hv. eapply known_ssame; eauto.
+    - rewrite Wr. eapply Forall_rec_sub_mono; eauto.
+    - rewrite Wc. eapply Forall_rec_sub_mono; eauto.
+    - destruct sm_shape0 as [L [Sh Lk]]. exists L. split; auto. rewrite Wl.
+      eapply lockwal_shape_mono; [|exact Sh]. exact M.
   Qed.
 
   (* the engine stops (panic) or finishes: nothing is claimed about the lock any more *)
@@ -219,8 +291,8 @@ Section Sim.
   Lemma Sim_new_step t s T : Sim s T -> Sim (new_step t s) T.
   Proof.
     intro H. unfold new_step. destruct (valid_transition _ _).
-    - eapply Sim_ssame; [|exact H]. constructor; cbn; auto; tauto.
-    - apply Sim_set_status; [discriminate|]. eapply Sim_ssame; [|exact H]. constructor; cbn; auto; tauto.
+    - eapply Sim_ssame; [|exact H]. ss_plain.
+    - apply Sim_set_status; [discriminate|]. eapply Sim_ssame; [|exact H]. ss_plain.
   Qed.
 
   Lemma Sim_new_round r s T : round s < r -> Sim s T -> Sim (new_round r s) T.
@@ -238,6 +310,62 @@ Section Sim.
   Proof.
     intros K []. constructor; auto. cbn. intros e0 u He Hu.
     apply in_app_or in He as [He|[<-|[]]]; eauto.
+  Qed.
+
+  (* a record whose votes are known is written to the round or the commit WAL *)
+  Lemma Sim_write_r r s T : rec_sub (known s) r -> Sim s T -> Sim (emit (OWrite WRound r) s) T.
+  Proof.
+    intros K H. pose proof (sm_fuse H) as F.
+    pose proof (score_emit (OWrite WRound r) s F eq_refl) as S.
+    assert (M : forall v, known s v -> known (emit (OWrite WRound r) s) v) by (intro v; apply known_score; auto).
+    assert (Ew : emit (OWrite WRound r) s = apply_out (OWrite WRound r) (set_outs (outs s ++ [OWrite WRound r]) None s))
+      by (apply emit_none; auto).
+    assert (H1 : Sim (set_wals (wal_r s) (wal_l s) (wal_c s) (emit (OWrite WRound r) s)) T).
+    { eapply Sim_ssame; [|exact H]. constructor; cbn; auto. rewrite Ew. constructor; cbn; auto; tauto. }
+    destruct H1. constructor; auto.
+    - rewrite Ew. cbn. rewrite wal_all_write. apply Forall_app. split.
+      + rewrite Ew in sm_walr0. cbn in sm_walr0. exact sm_walr0.
+      + constructor; auto. rewrite <- Ew. eapply rec_sub_mono; eauto.
+    - rewrite Ew. rewrite Ew in sm_walc0. exact sm_walc0.
+    - rewrite Ew. rewrite Ew in sm_shape0. exact sm_shape0.
+    - rewrite Ew. cbn. apply (sm_lsync H).
+  Qed.
+
+  Lemma Sim_write_c r s T : rec_sub (known s) r -> Sim s T -> Sim (emit (OWrite WCommit r) s) T.
+  Proof.
+    intros K H. pose proof (sm_fuse H) as F.
+    pose proof (score_emit (OWrite WCommit r) s F eq_refl) as S.
+    assert (Ew : emit (OWrite WCommit r) s = apply_out (OWrite WCommit r) (set_outs (outs s ++ [OWrite WCommit r]) None s))
+      by (apply emit_none; auto).
+    assert (H1 : Sim (set_wals (wal_r s) (wal_l s) (wal_c s) (emit (OWrite WCommit r) s)) T).
+    { eapply Sim_ssame; [|exact H]. constructor; cbn; auto. rewrite Ew. constructor; cbn; auto; tauto. }
+    destruct H1. constructor; auto.
+    - rewrite Ew. rewrite Ew in sm_walr0. exact sm_walr0.
+    - rewrite Ew. cbn. rewrite wal_all_write. apply Forall_app. split.
+      + rewrite Ew in sm_walc0. cbn in sm_walc0. exact sm_walc0.
+      + constructor; auto. rewrite <- Ew. eapply rec_sub_mono; [|exact K]. intro v. apply known_score; auto.
+    - rewrite Ew. rewrite Ew in sm_shape0. exact sm_shape0.
+    - rewrite Ew. cbn. apply (sm_lsync H).
+  Qed.
+
+  Lemma Sim_emit o s T : sim_quiet o = true -> Sim s T -> Sim (emit o s) T.
+  Proof. intros Q H. eapply Sim_ssame; [apply ssame_emit; [apply (sm_fuse H)|exact Q]|exact H]. Qed.
+
+  Lemma Sim_emit_all l : forall s T, forallb sim_quiet l = true -> Sim s T -> Sim (emit_all l s) T.
+  Proof.
+    induction l as [|o l IH]; intros s T Q H; cbn in *; auto.
+    apply andb_true_iff in Q as [Q1 Q2]. apply IH; auto. apply Sim_emit; auto.
+  Qed.
+
+  Lemma Sim_send_proposal b pol s T : Sim s T -> Sim (send_proposal n blocks b pol s) T.
+  Proof.
+    intro H. unfold send_proposal.
+    apply Sim_emit_all. { induction (all_parts blocks b); cbn; auto. }
+    match goal with |- Sim (if ?c then _ else _) _ => destruct c end.
+    - apply Sim_emit; [reflexivity|]. apply Sim_emit; [reflexivity|]. apply Sim_emit; [reflexivity|].
+      apply Sim_write_r; [exact I|exact H].
+    - apply Sim_emit; [reflexivity|]. apply Sim_emit; [reflexivity|].
+      apply Sim_write_r; [exact I|exact H].
   Qed.
 
   (* ---------------- pulling a soup vote of slot i back to the engine ---------------- *)
@@ -285,6 +413,12 @@ Section Sim.
     TM.quorum n (TM.soup T) (Z.to_N r) (convt t) w = true.
   Proof. intros H Q K. eapply quorum_link; eauto. intros v Hv. eapply known_soup; eauto. Qed.
 
+  Lemma vs_sub_known s ev : (forall u, In (Some u) ev -> known s u) -> vs_sub (known s) ev.
+  Proof. intros K k v Hk. apply K. eapply nth_error_In; eauto. Qed.
+
+  Lemma known_vs_sub s ev : vs_sub (known s) ev -> forall u, In (Some u) ev -> known s u.
+  Proof. intros S u Hu. apply In_nth_error in Hu as [k Hk]. eapply S; eauto. Qed.
+
   Lemma frame_set_lock T l : frame T -> frame (TM.set_lock T i l).
   Proof.
     intros [A B]. split; auto. intros j Hj. cbn. rewrite upd_other; auto.
@@ -293,25 +427,58 @@ Section Sim.
   Lemma frame_add_vote T m : frame T -> frame (TM.add_vote T m).
   Proof. intros [A B]. split; auto. cbn. apply incl_tl; auto. Qed.
 
-  (* ---------------- lock ---------------- *)
+  (* ---------------- lock: memory, ghost log and lock WAL in one go ---------------- *)
 
-  Lemma Sim_lock s T b ev x :
+  Hypothesis blocks_ok : forall x, In x blocks -> (1 <= b_parts x)%N.
+
+  Lemma nparts_pos b : (1 <= nparts blocks b)%N.
+  Proof.
+    unfold nparts, blk_of. destruct (find _ blocks) as [x|] eqn:F; [|lia].
+    apply find_some in F as [F _]. auto.
+  Qed.
+
+  Lemma Sim_lock_log s T b ev x :
     Sim s T -> Inv own s -> status_ s = Running ->
     quorum_ev n (round s) Prevote (Some b) ev -> (forall u, In (Some u) ev -> known s u) ->
     bps_id x = Some b ->
-    exists T', Sim (set_lock (round s) x (glog_add (GLock (round s) b ev) s)) T'.
+    exists T', Sim (write_lock_wal blocks ev b (set_lock (round s) x (glog_add (GLock (round s) b ev) s))) T'.
   Proof.
     intros H HI R Q K X.
     assert (Pk : TM.polka n (TM.soup T) (Z.to_N (round s)) (Some b) = true) by (eapply (sim_quorum (t:=Prevote)); eauto).
     exists (TM.set_lock T i (Some (Z.to_N (round s), b))).
     pose proof (tm_lock n byz i Hi Hbyz T _ _ (sim_own_le H HI R) Pk) as St.
-    destruct H. constructor; auto; cbn.
+    set (s1 := set_lock (round s) x (glog_add (GLock (round s) b ev) s)).
+    assert (F1 : fuse s1 = None) by (subst s1; cbn; apply (sm_fuse H)).
+    assert (U1 : w_unsynced (wal_l s1) = []) by (subst s1; cbn; apply (sm_lsync H)).
+    destruct (write_lock_wal_effect blocks ev b s1 F1 U1) as [Sc [Wr [Wc [Wl Us]]]]. cbv zeta in *.
+    set (s2 := write_lock_wal blocks ev b s1) in *.
+    assert (M : forall v, known s v -> known s2 v).
+    { intros v Kv. apply (known_score Sc). exact Kv. }
+    assert (Lo : lock_of s2 = Some (round s, b)).
+    { rewrite (lock_of_score Sc). subst s1. unfold lock_of. cbn. destruct x as [p|]; cbn in *; [|discriminate].
+      inversion X; subst. reflexivity. }
+    destruct H. constructor; auto.
     - eapply TP.reachable_step; eauto.
     - apply frame_set_lock; auto.
-    - intros _. rewrite upd_same. unfold lock_of. cbn. destruct x as [p|]; cbn in *; [|discriminate].
-      inversion X; subst. reflexivity.
-    - intros lr b0. rewrite upd_same. intro Eq. inversion Eq; subst. exact Pk.
-    - intros e u He Hu. apply in_app_or in He as [He|[<-|[]]]; eauto.
+    - intro m. cbn [TM.set_lock TM.soup]. rewrite sm_soup0. split; intros [v [Kv C]]; exists v; split; auto.
+      apply (known_score (score_sym Sc)) in Kv. exact Kv.
+    - intros _. cbn. rewrite upd_same, Lo. reflexivity.
+    - intros lr b0. cbn. rewrite upd_same. intro Eq. inversion Eq; subst. exact Pk.
+    - rewrite (ss_hvs Sc). subst s1. cbn. intros u Hu. apply M. auto.
+    - rewrite (ss_glog Sc). subst s1. cbn. intros e u He Hu. apply M.
+      apply in_app_or in He as [He|[<-|[]]]; eauto.
+    - rewrite (ss_dec Sc). subst s1. cbn. auto.
+    - rewrite (ss_round Sc). subst s1. cbn. auto.
+    - intros r t d k Hk. apply (ss_sent Sc) in Hk. subst s1. cbn in Hk. eauto.
+    - rewrite (ss_fuse Sc). exact F1.
+    - intros v Hv. apply M. auto.
+    - rewrite Wr. subst s1. cbn. eapply Forall_rec_sub_mono; eauto.
+    - rewrite Wc. subst s1. cbn. eapply Forall_rec_sub_mono; eauto.
+    - destruct sm_shape0 as [L [Sh _]]. exists (Some (b, round s)). split.
+      + rewrite Wl. subst s1. cbn [wal_l set_lock glog_add set_glog].
+        eapply LS_entry; [eapply lockwal_shape_mono; [exact M|exact Sh]|exact Q| |apply nparts_pos].
+        apply vs_sub_known. intros u Hu. apply M. auto.
+      + right. cbn. rewrite upd_same. reflexivity.
   Qed.
 
   (* ---------------- unlock ---------------- *)
@@ -335,6 +502,7 @@ Section Sim.
       + intros _. rewrite upd_same. reflexivity.
       + intros lr b0. rewrite upd_same. discriminate.
       + intros e u He Hu. apply in_app_or in He as [He|[<-|[]]]; eauto.
+      + destruct sm_shape0 as [L0 [Sh _]]. exists L0. split; auto. left. rewrite upd_same. reflexivity.
     - exists T. pose proof (sm_lock H R) as Lk. unfold lock_of in Lk. rewrite L in Lk. cbn in Lk.
       destruct H. constructor; auto.
   Qed.
@@ -388,6 +556,9 @@ Section Sim.
     destruct St as [a St].
     assert (Sp : TM.soup T' = conv (own_vote own s t d) :: TM.soup T) by (subst T'; destruct t, d; reflexivity).
     assert (Dc : TM.decided T' = TM.decided T) by (subst T'; destruct t, d; reflexivity).
+    assert (Lk' : TM.lock T' i = TM.lock T i).
+    { subst T'. destruct t; [reflexivity|]. destruct d as [b|]; [|reflexivity].
+      cbn. rewrite upd_same. cbn [gev_ok] in G. rewrite Lk, G. reflexivity. }
     exists T'. constructor.
     - eapply TP.reachable_step; [apply (sm_reach H)|exact St].
     - subst T'. destruct t, d; try (apply frame_add_vote, (sm_frame H)).
@@ -401,12 +572,8 @@ Section Sim.
           -- inversion K; subst. left. reflexivity.
     - intros _.
       assert (Ls : lock_of s' = lock_of s) by (subst s'; rewrite send3_none; auto).
-      rewrite Ls. subst T'. destruct t; [exact Lk|]. destruct d as [b|]; [|exact Lk].
-      cbn [gev_ok] in G. rewrite G. cbn. rewrite upd_same. reflexivity.
-    - intros lr b El. rewrite Sp. apply TP.polka_cons.
-      subst T'. destruct t; [apply (sm_lpolka H El)|]. destruct d as [b0|]; [|apply (sm_lpolka H El)].
-      cbn in El. rewrite upd_same in El. inversion El; subst.
-      cbn [gev_ok] in G. rewrite G in Lk. cbn in Lk. apply (sm_lpolka H Lk).
+      rewrite Ls, Lk'. exact Lk.
+    - intros lr b El. rewrite Sp. apply TP.polka_cons. rewrite Lk' in El. apply (sm_lpolka H El).
     - assert (Hs : hvs s' = hvs s) by (subst s'; rewrite send3_none; auto).
       rewrite Hs. intros u Hu. apply Mono. apply (sm_hvs H); auto.
     - assert (Gs : glog s' = glog s ++ [GVote (round s) t d (lock_of s)]) by (subst s'; rewrite send3_none; auto).
@@ -420,6 +587,18 @@ Section Sim.
       inversion K; subst. apply (sm_round H).
     - subst s'. rewrite send3_none; auto.
     - intros v Hv. apply Mono. apply (sm_k0 H); auto.
+    - assert (Ws : wal_all (wal_r s') = wal_all (wal_r s) ++ [RVote (own_vote own s t d)]).
+      { subst s'. rewrite send3_none; auto. unfold wal_all. cbn. rewrite app_nil_r, app_assoc. reflexivity. }
+      rewrite Ws. apply Forall_app. split.
+      + eapply Forall_rec_sub_mono; [exact Mono|apply (sm_walr H)].
+      + constructor; auto.
+    - assert (Ws : wal_c s' = wal_c s) by (subst s'; rewrite send3_none; auto).
+      rewrite Ws. eapply Forall_rec_sub_mono; [exact Mono|apply (sm_walc H)].
+    - assert (Ws : wal_l s' = wal_l s) by (subst s'; rewrite send3_none; auto).
+      rewrite Ws, Lk'. destruct (sm_shape H) as [L [Sh LL]]. exists L. split; auto.
+      eapply lockwal_shape_mono; [exact Mono|exact Sh].
+    - assert (Ws : wal_l s' = wal_l s) by (subst s'; rewrite send3_none; auto).
+      rewrite Ws. apply (sm_lsync H).
   Qed.
 
   (* ---------------- finalize ---------------- *)
